@@ -5,7 +5,7 @@ import "verif/hook"
 // deferred calls of builtins (Go permits close, delete, copy, panic, print, println, recover
 // in statement context). One function per builtin, loaded one by one in the interpreter.
 
-// ---DeferClose
+//c07b:section DeferClose
 func DeferClose() {
 	ch := make(chan int, 1)
 	f := func() {
@@ -18,7 +18,7 @@ func DeferClose() {
 	hook.Ev("close", v, ok, ok2)
 }
 
-// ---DeferDelete
+//c07b:section DeferDelete
 func DeferDelete() {
 	m := map[string]int{"a": 1, "b": 2}
 	f := func() {
@@ -33,7 +33,7 @@ func DeferDelete() {
 	hook.Ev("delete", len(m), hasA, hasB)
 }
 
-// ---DeferCopy
+//c07b:section DeferCopy
 func DeferCopy() {
 	s := []int{1, 2, 3}
 	f := func() {
@@ -46,7 +46,7 @@ func DeferCopy() {
 	hook.Ev("copy", s[0], s[1], s[2])
 }
 
-// ---DeferPanic
+//c07b:section DeferPanic
 func DeferPanic() {
 	f := func() (r interface{}) {
 		defer func() {
@@ -58,7 +58,7 @@ func DeferPanic() {
 	hook.Ev("panic", f())
 }
 
-// ---DeferRecover
+//c07b:section DeferRecover
 func DeferRecover() {
 	f := func() (r int) {
 		defer func() {
